@@ -27,7 +27,8 @@ const (
 // Outcome is what one invocation of a unit does.
 type Outcome struct {
 	K  int `json:"k,omitempty"`  // OOk | OErr | OPanic
-	PV int `json:"pv,omitempty"` // panic value kind: 0 string, 1 error, 2 runtime error, 3 struct, 4 pointer
+	PV int `json:"pv,omitempty"` // panic value kind: 0 string, 1 error, 2 runtime error, 3 struct, 4 pointer, 5 uncomparable struct, 6 slice
+	EV int `json:"ev,omitempty"` // error value kind: 0 unique value, 1 wraps context.DeadlineExceeded, 2 wraps context.Canceled, 3 the execution's shared instance
 	T  int `json:"t,omitempty"`  // timing: 0 instant, 1 yield, 2 sleep D microseconds
 	D  int `json:"d,omitempty"`
 }
@@ -104,6 +105,20 @@ func (e *TaskErr) Error() string {
 	return fmt.Sprintf("unit %d elem %d failed (env %d)", e.Unit, e.Elem, e.Env)
 }
 
+// WrapErr is a unit's error that wraps a context error, as the error of a
+// task-local context.WithTimeout would, although the directive's context is
+// alive.
+type WrapErr struct {
+	TaskErr
+	Inner error
+}
+
+func (e *WrapErr) Error() string { return e.TaskErr.Error() + ": " + e.Inner.Error() }
+func (e *WrapErr) Unwrap() error { return e.Inner }
+
+// PanicSlice is an uncomparable struct used as a panic value.
+type PanicSlice struct{ IDs []int }
+
 // PanicErr is an error used as a panic value.
 type PanicErr struct{ Env, Unit, Elem int }
 
@@ -162,11 +177,16 @@ type Env struct {
 	// edges between tasks; only the race detector and the final Results
 	// are judged.
 	Race bool
+
+	shared *TaskErr // the one error instance returned by every unit whose outcome says EV=3
 }
+
+func (e *Env) sharedErr() error { return e.shared }
 
 // NewEnv builds the environment for one execution.
 func NewEnv(id int, spec *Spec, scn *Scenario) *Env {
-	e := &Env{ID: id, Spec: spec, Scn: scn, Results: map[int]uint64{}, elemOut: map[[2]int]Outcome{}, gateCh: make(chan struct{})}
+	e := &Env{ID: id, Spec: spec, Scn: scn, Results: map[int]uint64{}, elemOut: map[[2]int]Outcome{}, gateCh: make(chan struct{}),
+		shared: &TaskErr{id, -2, -2}}
 	for _, eo := range scn.Elems {
 		e.elemOut[[2]int{eo.Unit, eo.Elem}] = eo.O
 	}
@@ -381,7 +401,17 @@ func (e *Env) finish(pos int, unit, elem int, o Outcome, canErr bool, outs []uin
 	var inj *Injected
 	switch kind {
 	case OErr:
-		inj = &Injected{Unit: unit, Elem: elem, Err: &TaskErr{e.ID, unit, elem}}
+		inj = &Injected{Unit: unit, Elem: elem}
+		switch o.EV {
+		case 1:
+			inj.Err = &WrapErr{TaskErr{e.ID, unit, elem}, context.DeadlineExceeded}
+		case 2:
+			inj.Err = &WrapErr{TaskErr{e.ID, unit, elem}, context.Canceled}
+		case 3:
+			inj.Err = e.sharedErr()
+		default:
+			inj.Err = &TaskErr{e.ID, unit, elem}
+		}
 	case OPanic:
 		inj = &Injected{Unit: unit, Elem: elem}
 		switch o.PV {
@@ -393,6 +423,10 @@ func (e *Env) finish(pos int, unit, elem int, o Outcome, canErr bool, outs []uin
 			inj.PVText = "assignment to entry in nil map"
 		case 3:
 			inj.PV = PanicStruct{e.ID, unit, elem}
+		case 5:
+			inj.PV = PanicSlice{[]int{e.ID, unit, elem}}
+		case 6:
+			inj.PV = []int{e.ID, unit, elem}
 		default:
 			inj.PV = &PanicStruct{e.ID, unit, elem}
 		}
